@@ -1066,16 +1066,32 @@ fn c16_test(raw: &RawC10, st: &mut Stats) -> Result<(), Failure> {
         st.class("layout-b:minimal");
     }
     // error atoms whose failure position falls outside the atom need the spans of the atoms, which we have
-    let diff_kinds = [
-        (ra.features.comments > 0) != (rb.features.comments > 0),
-        (ra.features.crlf > 0) != (rb.features.crlf > 0),
-        (ra.features.unicode_ws > 0) != (rb.features.unicode_ws > 0),
-        (ra.features.adjacent > 0) != (rb.features.adjacent > 0),
-        ra.features.eof_comment != rb.features.eof_comment,
-    ]
-    .iter()
-    .filter(|b| **b)
-    .count();
+    // kinds of layout feature that occur in at least one of the two renderings
+    let diff_kinds = if ra.text == rb.text || atoms.len() < 3 {
+        0
+    } else {
+        [
+            ra.features.comments > 0 || rb.features.comments > 0,
+            ra.features.crlf > 0 || rb.features.crlf > 0,
+            ra.features.unicode_ws > 0 || rb.features.unicode_ws > 0,
+            ra.features.adjacent > 0 || rb.features.adjacent > 0,
+            ra.features.eof_comment || rb.features.eof_comment,
+        ]
+        .iter()
+        .filter(|b| **b)
+        .count()
+    };
+    for (k, on) in [
+        ("comments", (ra.features.comments > 0) != (rb.features.comments > 0)),
+        ("crlf", (ra.features.crlf > 0) != (rb.features.crlf > 0)),
+        ("unicode-whitespace", (ra.features.unicode_ws > 0) != (rb.features.unicode_ws > 0)),
+        ("adjacency", (ra.features.adjacent > 0) != (rb.features.adjacent > 0)),
+        ("eof-comment", ra.features.eof_comment != rb.features.eof_comment),
+    ] {
+        if on {
+            st.class(&format!("only-one-layout-has:{k}"));
+        }
+    }
     let case = json!({"source": ra.text, "source_b": rb.text});
     // generator self-check: both renderings must have the same reference token list
     let view = |t: &str| match reftok::tokenize(t) {
@@ -1118,7 +1134,7 @@ fn raw_c16() -> impl Strategy<Value = RawC10> {
         .prop_map(|(text, injections, collapse)| RawC10 { text, injections, collapse })
 }
 
-pub const C16_RULE: &str = "token lists of every outcome class (valid decorated files, files with injected static violations, token-edited files, token soup, files with lexically bad atoms) rendered under two independent layouts (any Unicode whitespace, LF/CRLF, comments with arbitrary content, comment at EOF without newline, no separator wherever adjacency keeps the token list; layout B is the minimal one in ~1/4 of the cases). Metamorphic oracle: Ok outputs equal after deleting the `// @sha256` line; errors equal after mapping every byte position through the token-boundary map between the renderings. Non-trivial = the two layouts differ in >= 3 of {comments, CRLF, non-ASCII whitespace, adjacency, EOF comment}; distinct = the pair of texts.";
+pub const C16_RULE: &str = "token lists of every outcome class (valid decorated files, files with injected static violations, token-edited files, token soup, files with lexically bad atoms) rendered under two independent layouts (any Unicode whitespace, LF/CRLF, comments with arbitrary content, comment at EOF without newline, no separator wherever adjacency keeps the token list; layout B is the minimal one in ~1/4 of the cases). Metamorphic oracle: Ok outputs equal after deleting the `// @sha256` line; errors equal after mapping every byte position through the token-boundary map between the renderings. Non-trivial = at least 3 tokens, the two texts differ, and together they exercise >= 3 of {comments, CRLF, non-ASCII whitespace, adjacency, EOF comment} (the classes `only-one-layout-has:*` count the pairs in which a kind occurs on one side only); distinct = the pair of texts.";
 
 pub fn c16_run(ctx: &Ctx) -> i32 {
     let mut rep = Report::new(ctx, C16_RULE);
